@@ -156,6 +156,10 @@ def run(tier):
     own['net/client']['packets'] += [{'family': 'Talk', 'action': 'Request', 'body': [F('c', 'Client'), F('n', 'Net')]}]
     own['net/server']['packets'] += [{'family': 'Talk', 'action': 'Request', 'body': [F('m', 'Map')]}]
     entries.append(dict(name='own-directory-names', tree=own, jobs=[dict(op='namespace', declared=declared(own), firsts=FIRSTS if not quick else ['eolib', 'eolib.protocol.pub.server', 'eolib.protocol.net.client', 'eolib.protocol.pub', 'eolib.data'], hashseed=1)]))
+    # a type whose module name equals the name of a public function of the library (known finding)
+    fn_ = empty_tree()
+    fn_['']['structs'] += [{'name': 'Interleave', 'body': [F('a', 'char')]}]
+    entries.append(dict(name='function-name-collision', tree=fn_, jobs=[dict(op='namespace', declared=declared(fn_), firsts=['eolib', 'eolib.protocol', 'eolib.encrypt'], hashseed=2)]))
     run_entries(C, runner, entries)
     nprobe = npaths = 0
     for e in entries:
@@ -177,7 +181,8 @@ def run(tier):
                 for m in pr['name_mismatches'][:1]:
                     C.violation(f"tree '{e['name']}', first import {pr['first']}: public name {m['name']} defined in {m['defined_in']} is not that object in {m.get('looked_up_in')}: {m.get('got', m.get('why'))}",
                                 dict(unit='eolib package', input=dict(tree=e['name'], first_import=pr['first'], name=m['name'], xml=tree_xml(e['tree']))),
-                                key='names-lost-when-a-type-references-a-descendant-directory' if e['name'] == 'descendant-reference' else None)
+                                key=('names-lost-when-a-type-references-a-descendant-directory' if e['name'] == 'descendant-reference' else
+                                     'type-name-shadows-public-function' if e['name'] == 'function-name-collision' and m['name'] == 'interleave' else None))
     C.stream('oracle.namespace-probes', nprobe, nprobe, sample=dict(tree=entries[0]['name'], firsts=entries[0]['jobs'][0]['firsts'][:4]))
     C.cov['distribution'] = dict(fresh_interpreters=nprobe, module_paths_checked=npaths, trees=len(entries))
     extra = getattr(sys.modules[__name__], 'extra_checks', None)
